@@ -173,7 +173,7 @@ def run_schema(S, tier, seed, configs, wd, extra_cfg="", machine="view", shapes_
     return res
 
 
-def run_catalogue(tag, schemas, tier, seed, configs_for=None, machine="view"):
+def run_catalogue(tag, schemas, tier, seed, configs_for=None, machine="view", k_for=None):
     key = pipeline_key(tier, seed, tag)
     cpath = os.path.join(vlib.CACHE, "view", "%s-%s.json" % (tag, key))
     if os.path.exists(cpath) and os.environ.get("VERIF_NOCACHE") != "1":
@@ -184,7 +184,7 @@ def run_catalogue(tag, schemas, tier, seed, configs_for=None, machine="view"):
     def job(iS):
         i, S = iS
         cfgs = configs_for(i, S, base) if configs_for else base
-        return run_schema(S, tier, seed, cfgs, wd, machine=machine)
+        return run_schema(S, tier, seed, cfgs, wd, machine=machine, shapes_k=k_for(S) if k_for else None)
 
     results = vlib.parallel(list(enumerate(schemas)), job, nproc=4)
     vlib.write(cpath + ".tmp%d" % os.getpid(), json.dumps(results))
@@ -193,15 +193,18 @@ def run_catalogue(tag, schemas, tier, seed, configs_for=None, machine="view"):
 
 
 def view_results(tier, seed):
-    return run_catalogue("view", catalogue.view_schemas(), tier, seed)
+    return run_catalogue("view", catalogue.view_schemas(tier), tier, seed)
 
 
 def cursor_results(tier, seed):
-    return run_catalogue("cursor", catalogue.view_schemas(), tier, seed, machine="cursor")
+    # the extra (thorough-only) schemas nest three levels deep: every instance x
+    # landmark x member x wrapper is a transition, so they get few shapes
+    return run_catalogue("cursor", catalogue.view_schemas(tier), tier, seed, machine="cursor",
+                         k_for=lambda S: 2 if S["package"].startswith("x") else None)
 
 
 def visit_results(tier, seed):
-    return run_catalogue("visit", catalogue.view_schemas(), tier, seed, machine="visit")
+    return run_catalogue("visit", catalogue.view_schemas(tier), tier, seed, machine="visit")
 
 
 def header_results(tier, seed):
